@@ -172,6 +172,17 @@ def run_case(case):
                 fails.append((n, "uiso_preserved", "atom %d: Uisoequiv %r -> %r" % (i, p["uiso"], c["uiso"])))
             if np.abs(c["U"] - c["U"].T).max() > RTOL * su * K * K:
                 fails.append((n, "symmetric", "atom %d: tensor not symmetric after placement" % i))
+        spec = case["lats"][k - 1]
+        if spec["kind"] == "supercell" and curk == spec["of"]:
+            # ncell folding: coordinates divide by the multipliers, tensors unchanged
+            nn = np.array(spec["n"], dtype=float)
+            for i, (p, c) in enumerate(zip(prev, cur)):
+                sx = max(1.0, np.abs(p["xyz"]).max())
+                if not np.abs(p["xyz"] / nn - c["xyz"]).max() <= RTOL * sx * K:
+                    fails.append((n, "ncell_fold", "atom %d: xyz %r / %r gives %r" % (i, p["xyz"].tolist(), spec["n"], c["xyz"].tolist())))
+                su = max(np.abs(p["U"]).max(), 1e-300)
+                if not np.abs(p["U"] - c["U"]).max() <= RTOL * su * K * K:
+                    fails.append((n, "ncell_fold", "atom %d: tensor changed in a supercell: %r -> %r" % (i, p["U"].tolist(), c["U"].tolist())))
         if k in seen:                        # there and back / chains compose
             old = seen[k]
             for i, (p, c) in enumerate(zip(old, cur)):
@@ -323,14 +334,38 @@ def run(ck):
         "atoms of the structure refer to the structure's lattice (C08) is a hypothesis of there_and_back / crystal_preserved",
         "element, label, occupancy and object identity are not part of the Lean model; they are checked on the implementation only",
     ]
+    w = witness_demo()
+    ck.coverage["evaluations"] += 1
+    if w:
+        ck.fail("witness:demo", "the implementation does not reproduce the Lean witness DS.Props.C14.demo: %r" % (w,), {"kind": "witness", "got_expected": w})
     if not ok and not ck.violations:
         ck.fail("lean-build", "Lean obligations of C14 no longer check: %r" % info["failed_modules"],
                 {"kind": "proof-obligation", "theorem": info["failed_modules"], "errors": info["errors"]}, no_failing_input=True)
 
 
+def witness_demo():
+    """`DS.Props.C14.demo` placed into `orth` (Lean: first atom xyz = (13/8, 1/4, 0), U'11 = 121/16),
+    replayed on the implementation."""
+    import numpy as np
+    from diffpy.structure import Atom, Lattice, Structure
+
+    L1 = Lattice(base=[[5.0, 0, 0], [3.0, 4.0, 0], [0, 0, 1.0]])
+    L2 = Lattice(2, 4, 5, 90, 90, 90)
+    s = Structure([Atom("C", [0.5, 0.25, 0], U=np.array([[1.0, 2, 3], [2, 4, 5], [3, 5, 6]])),
+                   Atom("O", [0, 1.0 / 3, 0.5], Uisoequiv=7.0)], lattice=L1)
+    s.placeInLattice(L2)
+    got = {"x": s[0].xyz[0], "y": s[0].xyz[1], "z": s[0].xyz[2], "U11": s[0].U[0, 0], "iso": s[1].Uisoequiv}
+    exp = {"x": 13.0 / 8, "y": 0.25, "z": 0.0, "U11": 121.0 / 16, "iso": 7.0}
+    return {k: (float(got[k]), exp[k]) for k in exp if not abs(got[k] - exp[k]) <= 1e-12}
+
+
 def replay(path):
     common.use_repo()
     r = json.load(open(path))
+    if r.get("kind") == "witness":
+        w = witness_demo()
+        print("witness:", w)
+        return 1 if w else 0
     if r.get("kind") == "hypothesis":
         bad = [latok_defects(L) for L in build_lats(r["case"])]
         print("LatOK defects:", bad)
